@@ -4,7 +4,8 @@
 
    The float kernel (Arnoldi coefficients, Givens rotations, back substitution) is NOT modelled.  Inputs of the
    model taken from the run: for every cycle c and Arnoldi step k whether the residual estimate was below the
-   tolerance (`error < res`), and whether the residual of the initial guess was.
+   tolerance (`error < res`) and whether it had reached the rounding level of the residual at the start of the cycle
+   (`error <= eps * total_error[-1][0]`), and whether the residual of the initial guess was below the tolerance.
 
    Events (tag, a, b, c) recorded by the instrumented run:
      (14,c,0,0)   A.matvec(x) for the residual r_c = b - A x      (c = 0: __init__, c > 0: reset after cycle c-1)
@@ -18,18 +19,25 @@
      (15,0,0,0)   A.matvec(x) for the returned residual *)
 From TenpyV Require Import Base.Prelude Model.Truncate Model.Krylov.
 
-(* `error < res and k >= N_min` in step k; fl = the `error < res` flags of the cycle *)
-Definition gm_hit (N_min : nat) (fl : list bool) (k : nat) : bool := nth k fl false && (N_min <=? k)%nat.
+(* per Arnoldi step two observed booleans (below, exhausted):
+     below     = `error < res`
+     exhausted = `error <= eps * total_error[-1][0]`: the estimate reached the rounding level of the residual the cycle started
+                 from, i.e. the Krylov space is exhausted (continuing would divide 0/0)
+   the stop test of step k:  below and (k >= N_min or exhausted) *)
+Definition gm_below (fl : list (bool * bool)) (k : nat) : bool := fst (nth k fl (false, false)).
+Definition gm_exh (fl : list (bool * bool)) (k : nat) : bool := snd (nth k fl (false, false)).
+Definition gm_hit (N_min : nat) (fl : list (bool * bool)) (k : nat) : bool :=
+  gm_below fl k && ((N_min <=? k)%nat || gm_exh fl k).
 
 (* for k in range(k0, k0+n): ...; if hit: converged = True; break     returns (k_last + 1, converged) *)
-Fixpoint gm_inner (N_min k n : nat) (fl : list bool) : nat * bool :=
+Fixpoint gm_inner (N_min k n : nat) (fl : list (bool * bool)) : nat * bool :=
   match n with
   | O => (k, false)
   | S n' => if gm_hit N_min fl k then (S k, true) else gm_inner N_min (S k) n' fl
   end.
 
 (* for _ in range(restart): one cycle; if not converged: reset() else break *)
-Fixpoint gm_cycles (N_min N_max r : nat) (fls : list (list bool)) : list (nat * bool) :=
+Fixpoint gm_cycles (N_min N_max r : nat) (fls : list (list (bool * bool))) : list (nat * bool) :=
   match r with
   | O => []
   | S r' =>
@@ -49,11 +57,11 @@ Fixpoint gm_run_events (c : nat) (l : list (nat * bool)) : list ev :=
   end.
 
 (* GMRES.__init__ followed by GMRES.run *)
-Definition gmres_events (N_min N_max restart : nat) (init_below : bool) (fls : list (list bool)) : list ev :=
+Definition gmres_events (N_min N_max restart : nat) (init_below : bool) (fls : list (list (bool * bool))) : list ev :=
   (14, 0, 0, 0)%nat :: (10, 0, 0, 0)%nat ::
   (if init_below then [] else gm_run_events 0 (gm_cycles N_min N_max restart fls) ++ [(15, 0, 0, 0)%nat]).
 
-Definition gmres_iters (N_min N_max restart : nat) (init_below : bool) (fls : list (list bool)) : list nat :=
+Definition gmres_iters (N_min N_max restart : nat) (init_below : bool) (fls : list (list (bool * bool))) : list nat :=
   if init_below then [] else map fst (gm_cycles N_min N_max restart fls).
 
 (* observables used in the theorems *)
@@ -72,7 +80,7 @@ Definition ev_fresh (e : ev) : Prop :=
   end.
 
 (* ---- correspondence checker: (N_min, N_max, restart, init_below, flags, events of the run, total_iters) *)
-Definition check_gmres (x : nat * nat * nat * bool * list (list bool) * list ev * list nat) : bool :=
+Definition check_gmres (x : nat * nat * nat * bool * list (list (bool * bool)) * list ev * list nat) : bool :=
   match x with (N_min, N_max, restart, ib, fls, evs, iters) =>
     list_eqb ev_eqb evs (gmres_events N_min N_max restart ib fls) &&
     list_eqb Nat.eqb iters (gmres_iters N_min N_max restart ib fls) end.
